@@ -198,4 +198,36 @@ SlotOK(s) ==
           /\ (e.c \in {"A", "M"}) = c.inl          \* the child's own flag agrees with where it is stored
           /\ c.root                                \* a nested container is the root of a value
 InlineIffFits(root) == \A c \in Containers(root) : \A i \in 1..Len(ChildSlots(c)) : SlotOK(ChildSlots(c)[i])
+
+\* ------------------------------------------------------------- byte-level relations (C06, C07)
+\* does a slab hold references to other slabs (at any inline depth)?  Index slabs have no elements.
+RECURSIVE ElemHasPtr(_), NodeHasPtr(_), ElsHasPtr(_)
+ElemHasPtr(e) == e.c \in {"L", "RA", "RM", "dangling"} \/ (e.c \in {"A", "M"} /\ NodeHasPtr(e.ch[1]))
+ElsHasPtr(E) == \E i \in 1..Len(E.el) :
+                  LET x == E.el[i] IN
+                  CASE x.t = "s" -> ElemHasPtr(x.k[1]) \/ ElemHasPtr(x.v[1])
+                    [] x.t = "g" -> ElsHasPtr(x.els[1])
+                    [] x.t = "x" -> TRUE
+                    [] OTHER -> FALSE
+NodeHasPtr(n) == CASE n.k = "d" -> \E i \in 1..Len(n.e) : ElemHasPtr(n.e[i])
+                   [] n.k = "md" -> ElsHasPtr(n.els[1])
+                   [] OTHER -> FALSE
+\* every standalone slab of a container tree and of everything it references
+RECURSIVE ExternalGroups(_)
+ExternalGroups(E) == UNION {IF E.el[i].t = "x" THEN {E.el[i].x[1]} \cup ExternalGroups(E.el[i].x[1].els[1])
+                            ELSE IF E.el[i].t = "g" THEN ExternalGroups(E.el[i].els[1]) ELSE {} : i \in 1..Len(E.el)}
+OwnSlabs(c) == IF IsArr(c) THEN {n \in AOwnNodes(c) : ~n.inl}
+               ELSE {n \in MOwnNodes(c) : ~n.inl} \cup UNION {ExternalGroups(n.els[1]) : n \in {m \in MOwnNodes(c) : m.k = "md"}}
+SlabNodes(root) == UNION {OwnSlabs(c) : c \in Containers(root)}
+\* C07: the flags readable from the raw register describe the slab (reg: one register observation)
+FlagsOf(reg, nodes) ==
+  LET ns == {n \in nodes : n.id = reg.id} IN
+  IF ns = {} THEN ~reg.root /\ ~reg.lim                  \* a large value in its own slab: not a value root, no size limit
+  ELSE \A n \in ns : reg.root = n.root /\ reg.lim = ~n.any /\ reg.ptr = NodeHasPtr(n)
+\* C06: reported size = bytes written (body), up to the two documented savings; decoded slab reports the same size
+SizeOf(reg, nodes) ==
+  LET adj == IF ~reg.root /\ reg.isdata /\ ~reg.hasnext THEN 16 ELSE 0 IN
+  /\ (reg.msz # 0 => reg.dsz = reg.msz)      \* msz = 0: the slab is not loaded in the live storage (after a cache drop)
+  /\ IF reg.compact THEN reg.body + adj <= reg.dsz ELSE reg.body + adj = reg.dsz
+  /\ \A n \in {m \in nodes : m.id = reg.id} : n.sz = reg.dsz
 =============================================================================
